@@ -21,7 +21,7 @@ const RDBdom set[string]
 const RDB    fmap[string]seq[Element]
 const RDBlen fmap[string]int
 pred DBIs(db shared.DBNodeMap) :=
-     (forall k string :: {db[k]} (k in db) == (k in RDBdom))
+     (forall k string :: {db[k]} {k in db} (k in db) == (k in RDBdom))
   && (forall k string :: {db[k]} k in db ==> db[k] != nil && elems(db[k].Elements) == RDB[k] && len(db[k].Elements) == RDBlen[k] && RDBlen[k] >= 0)
 
 fun CPosIn(l seq[Element], j int, q float64, x string) float64 :=
@@ -40,10 +40,11 @@ fun EHas(els seq[Element], i int, x string) bool := if i <= 0 then false else (E
 
 // the accumulator holds exactly the contributions of the foods els[0..i) plus, for the food being expanded
 // (name n, quantity q, resolved list l), those of its first j elements
+// (stated over the accumulator's abstract view accP / accN / accH, see AccView in the root package)
 pred AccIs(acc shared.Accumulator, els seq[Element], i int, l seq[Element], j int, q float64) :=
-     (forall x string :: {acc[x]} AccPos(acc, x) == EPos(els, i, x) + CPosIn(l, j, q, x))
-  && (forall x string :: {acc[x]} AccNeg(acc, x) == ENeg(els, i, x) + CNegIn(l, j, q, x))
-  && (forall x string :: {acc[x]} (x in acc) == (EHas(els, i, x) || SpecHas(l, j, x)))
+     (forall x string :: {accP[acc][x]} accP[acc][x] == EPos(els, i, x) + CPosIn(l, j, q, x))
+  && (forall x string :: {accN[acc][x]} accN[acc][x] == ENeg(els, i, x) + CNegIn(l, j, q, x))
+  && (forall x string :: {x in accH[acc]} (x in accH[acc]) == (EHas(els, i, x) || SpecHas(l, j, x)))
 
 // ---------------------------------------------------------------------------------------------
 // newTotalFromAccumulator: one row per key, strictly sorted by name, whatever order the map is visited in
@@ -52,12 +53,12 @@ fun StrictStr(a seq[string], n int) bool opaque := forall p, q int :: 0 <= p && 
 fun TotalsSorted(ts seq[total], n int) bool opaque := forall p, q int :: 0 <= p && p < q && q < n ==> ts[p].Name < ts[q].Name
 pred TotalsOf(ts seq[total], n int, acc shared.Accumulator) :=
      TotalsSorted(ts, n)
-  && (forall p int :: {ts[p]} 0 <= p && p < n ==> ts[p].Name in acc && ts[p].Positive == AccPos(acc, ts[p].Name) && ts[p].Negative == AccNeg(acc, ts[p].Name) && ts[p].Sum == ts[p].Positive + ts[p].Negative)
+  && (forall p int :: {ts[p]} 0 <= p && p < n ==> ts[p].Name in accH[acc] && ts[p].Positive == accP[acc][ts[p].Name] && ts[p].Negative == accN[acc][ts[p].Name] && ts[p].Sum == ts[p].Positive + ts[p].Negative)
   && n == len(acc)
 
 func newTotalFromAccumulator returns (res)
   props C02 C05 C07
-  requires @wf WfAcc(acc)
+  requires @wf WfAcc(acc) && AccView(acc)
   calluse Sort#1 strings
   ensures @rows [C02 C05] res != nil && fresh(res) && TotalsOf(elems(*res), len(*res), acc)
   ensures @acc-unchanged mapval(acc) == old(mapval(acc))
@@ -96,7 +97,8 @@ pred RowOK(re seq[reportElement], p int, els seq[Element]) :=
 // invariants its postconditions need; all passes share the preconditions.
 func GetReportItem returns (item)
   props C02 C07 C15 C08
-  requires @args ln != nil && (forall k string :: {db[k]} k in db ==> db[k] != nil)
+  modifies ghost(accKey, accP, accN, accH)
+  requires @args ln != nil && DBIs(db)
   ensures @time [C02] item.Time == ln.Time
   ensures @totals-only [C15] config.TotalsOnly ==> item.Elements != nil && *item.Elements == nil
   ensures @no-totals [C15] !config.Totals ==> item.Totals == nil
@@ -106,13 +108,98 @@ func GetReportItem returns (item)
     invariant @re len(re) == len(ln.Elements) && fresh(arr(re))
     invariant @own forall p int :: {re[p]} 0 <= p && p < len(re) ==> arr(re[p].Ingredients) == 0 || arr(re[p].Ingredients) >= old(alloc())
     invariant @acc-off !config.Totals ==> acc == nil
-    invariant @acc-on config.Totals ==> WfAcc(acc) && fresh(acc) && (forall k string :: {acc[k]} k in acc ==> arr(acc[k]) >= old(alloc()))
+    invariant @acc-on config.Totals ==> WfAcc(acc) && AccView(acc) && fresh(acc) && (forall k string :: {acc[k]} k in acc ==> arr(acc[k]) >= old(alloc()))
   }
   loop 2 {
     invariant @params ln == old(ln) && db == old(db) && config == old(config) && ln.Elements == old(ln.Elements) && ln.Time == old(ln.Time) && 0 <= i && i < len(ln.Elements)
     invariant @re len(re) == len(ln.Elements) && fresh(arr(re))
     invariant @own forall p int :: {re[p]} 0 <= p && p < len(re) ==> arr(re[p].Ingredients) == 0 || arr(re[p].Ingredients) >= old(alloc())
     invariant @acc-off !config.Totals ==> acc == nil
-    invariant @acc-on config.Totals ==> WfAcc(acc) && fresh(acc) && (forall k string :: {acc[k]} k in acc ==> arr(acc[k]) >= old(alloc()))
+    invariant @acc-on config.Totals ==> WfAcc(acc) && AccView(acc) && fresh(acc) && (forall k string :: {acc[k]} k in acc ==> arr(acc[k]) >= old(alloc()))
+  }
+
+// aspect "totals": the day's totals are exactly the contributions EPos/ENeg of the day's foods
+func GetReportItem aspect totals returns (item)
+  props C02 C07 C12
+  let E0 := elems(ln.Elements)
+  let N0 := len(ln.Elements)
+  ensures @totals [C02 C07 C12] config.Totals ==> item.Totals != nil && TotalsSorted(elems(*item.Totals), len(*item.Totals))
+      && (forall p int :: {elems(*item.Totals)[p]} 0 <= p && p < len(*item.Totals) ==> EHas(E0, N0, elems(*item.Totals)[p].Name)
+            && elems(*item.Totals)[p].Positive == EPos(E0, N0, elems(*item.Totals)[p].Name)
+            && elems(*item.Totals)[p].Negative == ENeg(E0, N0, elems(*item.Totals)[p].Name)
+            && elems(*item.Totals)[p].Sum == elems(*item.Totals)[p].Positive + elems(*item.Totals)[p].Negative)
+  loop 1 {
+    pre { unfold forall x string :: EPos(E0, 0, x); unfold forall x string :: ENeg(E0, 0, x); unfold forall x string :: EHas(E0, 0, x); unfold forall x string :: CPosIn(E0, 0, 0.0, x); unfold forall x string :: CNegIn(E0, 0, 0.0, x); unfold forall x string :: SpecHas(E0, 0, x) }
+    invariant @params ln == old(ln) && db == old(db) && config == old(config) && ln.Elements == old(ln.Elements) && len(re) == N0 && elems(ln.Elements) == E0
+    invariant @book DBIs(db)
+    invariant @own forall p int :: {re[p]} 0 <= p && p < len(re) ==> arr(re[p].Ingredients) == 0 || arr(re[p].Ingredients) >= old(alloc())
+    invariant @acc-off !config.Totals ==> acc == nil
+    invariant @acc-on config.Totals ==> WfAcc(acc) && AccView(acc) && fresh(acc)
+    invariant @acc-is config.Totals ==> AccIs(acc, E0, #i, E0, 0, 0.0)
+    end {
+      let i1 := #i + 1
+      unfold forall x string :: EPos(E0, i1, x)
+      unfold forall x string :: ENeg(E0, i1, x)
+      unfold forall x string :: EHas(E0, i1, x)
+      unfold forall x string :: CPos(E0[i1 - 1].Name, E0[i1 - 1].Value, x)
+      unfold forall x string :: CNeg(E0[i1 - 1].Name, E0[i1 - 1].Value, x)
+      unfold forall x string :: CHas(E0[i1 - 1].Name, x)
+    }
+  }
+  loop 2 {
+    pre { unfold forall x string :: CPosIn(RDB[E0[i].Name], 0, re[i].Value, x); unfold forall x string :: CNegIn(RDB[E0[i].Name], 0, re[i].Value, x); unfold forall x string :: SpecHas(RDB[E0[i].Name], 0, x) }
+    invariant @params ln == old(ln) && db == old(db) && config == old(config) && ln.Elements == old(ln.Elements) && len(re) == N0 && elems(ln.Elements) == E0 && 0 <= i && i < N0
+    invariant @book DBIs(db)
+    invariant @own forall p int :: {re[p]} 0 <= p && p < len(re) ==> arr(re[p].Ingredients) == 0 || arr(re[p].Ingredients) >= old(alloc())
+    invariant @row re[i].Value == E0[i].Value && E0[i].Name in RDBdom && elems(#coll) == RDB[E0[i].Name] && len(#coll) == RDBlen[E0[i].Name]
+    invariant @acc-off !config.Totals ==> acc == nil
+    invariant @acc-on config.Totals ==> WfAcc(acc) && AccView(acc) && fresh(acc)
+    invariant @acc-is config.Totals ==> AccIs(acc, E0, i, RDB[E0[i].Name], #i, re[i].Value)
+  }
+  ghost before call 1 Add {
+    let j1 := #i + 1
+    unfold forall x string :: CPosIn(RDB[E0[i].Name], j1, re[i].Value, x)
+    unfold forall x string :: CNegIn(RDB[E0[i].Name], j1, re[i].Value, x)
+    unfold forall x string :: SpecHas(RDB[E0[i].Name], j1, x)
+  }
+  // after a food the book does not define was added as itself
+  ghost after call 4 Add {
+    let i1 := #i + 1
+    unfold forall x string :: EPos(E0, i1, x)
+    unfold forall x string :: ENeg(E0, i1, x)
+    unfold forall x string :: EHas(E0, i1, x)
+    unfold forall x string :: CPos(E0[i1 - 1].Name, E0[i1 - 1].Value, x)
+    unfold forall x string :: CNeg(E0[i1 - 1].Name, E0[i1 - 1].Value, x)
+    unfold forall x string :: CHas(E0[i1 - 1].Name, x)
+    assert @pos-self config.Totals ==> (forall x string :: {accP[acc][x]} accP[acc][x] == EPos(E0, i1, x))
+    assert @neg-self config.Totals ==> (forall x string :: {accN[acc][x]} accN[acc][x] == ENeg(E0, i1, x))
+    assert @has-self config.Totals ==> (forall x string :: {x in accH[acc]} (x in accH[acc]) == EHas(E0, i1, x))
+  }
+
+// aspect "rows": every food as logged, followed by quantity * each of its resolved elements (or itself)
+func GetReportItem aspect rows returns (item)
+  props C02 C15 C12
+  let E0 := elems(ln.Elements)
+  let N0 := len(ln.Elements)
+  ensures @rows [C02 C15 C12] !config.TotalsOnly ==> item.Elements != nil && len(*item.Elements) == N0 && (forall p int :: {elems(*item.Elements)[p]} 0 <= p && p < N0 ==> RowOK(elems(*item.Elements), p, E0))
+  loop 1 {
+    invariant @params ln == old(ln) && db == old(db) && config == old(config) && ln.Elements == old(ln.Elements) && elems(ln.Elements) == E0 && len(ln.Elements) == N0
+    invariant @book DBIs(db)
+    invariant @re len(re) == N0 && fresh(arr(re))
+    invariant @done forall p int :: {re[p]} 0 <= p && p < #i ==> RowOK(elems(re), p, E0) && (arr(re[p].Ingredients) == 0 || (arr(re[p].Ingredients) >= old(alloc()) && arr(re[p].Ingredients) < alloc()))
+    invariant @todo forall p int :: {re[p]} #i <= p && p < len(re) ==> re[p].Ingredients == nil && len(re[p].Ingredients) == 0
+    invariant @acc-off !config.Totals ==> acc == nil
+    invariant @acc-on config.Totals ==> WfAcc(acc) && AccView(acc)
+  }
+  loop 2 {
+    invariant @params ln == old(ln) && db == old(db) && config == old(config) && ln.Elements == old(ln.Elements) && elems(ln.Elements) == E0 && len(ln.Elements) == N0 && 0 <= i && i < N0
+    invariant @book DBIs(db)
+    invariant @re len(re) == N0 && fresh(arr(re))
+    invariant @done forall p int :: {re[p]} 0 <= p && p < i ==> RowOK(elems(re), p, E0) && (arr(re[p].Ingredients) == 0 || (arr(re[p].Ingredients) >= old(alloc()) && arr(re[p].Ingredients) < at(loop1, alloc())))
+    invariant @todo forall p int :: {re[p]} i < p && p < len(re) ==> re[p].Ingredients == nil && len(re[p].Ingredients) == 0
+    invariant @row re[i].Name == E0[i].Name && re[i].Value == E0[i].Value && E0[i].Name in RDBdom && elems(#coll) == RDB[E0[i].Name] && len(#coll) == RDBlen[E0[i].Name] && arr(#coll) < old(alloc())
+    invariant @ingredients len(re[i].Ingredients) == #i && (arr(re[i].Ingredients) == 0 || arr(re[i].Ingredients) >= at(loop1, alloc())) && (#i > 0 ==> arr(re[i].Ingredients) != 0) && (forall j int :: {elems(re[i].Ingredients)[j]} 0 <= j && j < #i ==> elems(re[i].Ingredients)[j].Name == elems(#coll)[j].Name && elems(re[i].Ingredients)[j].Value == elems(#coll)[j].Value * re[i].Value)
+    invariant @acc-off !config.Totals ==> acc == nil
+    invariant @acc-on config.Totals ==> WfAcc(acc) && AccView(acc)
   }
 @*/
